@@ -90,7 +90,7 @@ def align_port_kinds(src, real):
                 y['kind'] = x['kind']
 
 
-def model_with(schema, home, text, seed, incomp=False):
+def model_with(schema, home, text, seed, incomp=False, other=None):
     env, texts = environment()
     item = {'env': env, 'texts': dict(texts), 'script_texts': []}
     d = calls.diagram(schema, item)
@@ -116,6 +116,9 @@ def model_with(schema, home, text, seed, incomp=False):
                   'states': [{'n': 'Waiting', 'numb': 1, 'body': ''}]}]
     cb['sms'] = [{'kind': 'inst', 'events': [E(1, 'ping', ('n', 'integer'), ('m', 'integer'))],
                   'states': [{'n': 'Listening', 'numb': 1, 'body': ''}]}]
+    if other is not None:
+        # a second generated body lives in the same model (a function of its own); the whole model is prebuilt
+        d['funcs'].append({'n': 'other_target', 'ret': 'integer', 'body': other, 'params': PARAMS})
     if home == 'func':
         d['funcs'].append({'n': 'target', 'ret': 'integer', 'body': text, 'params': PARAMS})
     elif home == 'bridge':
@@ -181,18 +184,24 @@ def one_item(plan, item):
           'home': item['home'], 'gen': '', 'idem': 'skip', 'consistent': 'skip',
           'facts': {'stmts': [], 'vals': [], 'vars': [], 'ppairs': [], 'subtype_counts': [], 'rawkw': [], 'nlinks': 0},
           'strict': 'yes' if item.get('strict') else 'no', 'casediff': []}
+    other = item.get('other')
+    otext = render(other['toks'], other.get('seed', 0), other.get('case', 'lower'), other.get('layout', 'mixed'), other.get('keep'))[0] if other else None
     try:
         with limit(60.0):
-            m, inst = model_with(schema, item['home'], text, item.get('seed', 0), item.get('incomp', False))
+            m, inst = model_with(schema, item['home'], text, item.get('seed', 0), item.get('incomp', False), otext)
             before = violations(m, item['home'])
-            prebuild.prebuild_action(inst)
+            if other:
+                # every action of the model is prebuilt in one go: what one action leaves behind must not show in another
+                prebuild.prebuild_model(m)
+            else:
+                prebuild.prebuild_action(inst)
             after = violations(m, item['home'])
             # the synthesised model is minimal (no system / diagram rows); prebuilding must not add a single violation
             ev['consistent'] = 'yes' if after == before else 'no'
             ev['violations'] = [before, after]
             if item.get('facts'):
                 import prebuildfacts
-                ev['facts'] = prebuildfacts.collect(m, inst)
+                ev['facts'] = prebuildfacts.collect(m, inst, own_only=bool(other))
             if item.get('strict'):
                 # the same tokens at the same positions with every keyword in lower case: the population prebuilt from
                 # that text is what keyword case must not change
@@ -212,6 +221,19 @@ def one_item(plan, item):
             prebuild.prebuild_action(inst2)
             gen2 = sourcegen.gen_text_action(inst2)
             ev['idem'] = 'yes' if gen2 == gen else 'no'
+            if other:
+                # the second body of the model, prebuilt in the same go: its generated text is judged like the first one's
+                ev2 = dict(ev, src=other['body'], toks=other['toks'], text=otext, home='func', real=[], gen='', idem='skip', tokpos=[])
+                oinst = m.select_any('S_SYNC', xtuml.where_eq(Name='other_target'))
+                ev2['gen'] = sourcegen.gen_text_action(oinst)
+                ev2['real'], _ = oaladapter.convert(oal.parse(ev2['gen']), ev2['gen'])
+                align_port_kinds(ev2['src'], ev2['real'])
+                if item.get('facts'):
+                    import prebuildfacts
+                    ev2['facts'] = prebuildfacts.collect(m, oinst, own_only=True)
+                    ev2['tokpos'] = render(other['toks'], other.get('seed', 0), other.get('case', 'lower'), other.get('layout', 'mixed'), other.get('keep'))[1]
+                    ev2['casediff'] = []
+                ev['_second'] = ev2
     except CallTimeout:
         ev['err'] = ev['errkind'] = 'Timeout'
     except oal.ParseException as e:
@@ -306,7 +328,12 @@ def main(plan_path, out_path):
     for r in plan['runs']:
         evs = []
         for it in r['items']:
-            evs += real_items(plan, it) if 'model' in it else [one_item(plan, it)]
+            if 'model' in it:
+                evs += real_items(plan, it)
+            else:
+                ev = one_item(plan, it)
+                second = ev.pop('_second', None)
+                evs += [ev, second] if second else [ev]
         out.append(evs)
     json.dump(out, open(out_path, 'w'))
 
